@@ -240,7 +240,9 @@ def _run(ctx, work):
         usable.append((f, kinds))
     rng.shuffle(usable)
     per = ctx.pick(2, 6)
-    budget = ctx.pick(5000, 120000)
+    budget = ctx.pick(6500, 200000)
+    nd = ctx.pick(2, 6)
+    ndirected = 0
     cases = []
     for f, kinds in usable:
         fmt = bytes(f['fmt']).decode('latin-1')
@@ -254,6 +256,13 @@ def _run(ctx, work):
                 else:
                     lits.append('"%s"' % rng.choice(STR_POOL))
             cases.append((fmt, lits, rng.random() < 0.25))
+        shapes = shapes_of(fmt)
+        if [x[0] for x in shapes] == ['str' if kd == 'chr' else kd for kd in kinds] and 'num' in kinds:
+            # shape-directed values: exact fill, carry at the rounding boundary, both signs
+            for _ in range(nd):
+                lits = [directed_values(sh, rng) if sh[0] == 'num' else '"%s"' % rng.choice(STR_POOL) for sh in shapes]
+                cases.append((fmt, lits, rng.random() < 0.25))
+                ndirected += 1
         if len(cases) >= budget:
             break
     cfgs_all = [(0, False), (0, True), (1, False), (1, True), (2, False), (2, True)]
@@ -298,9 +307,9 @@ def _run(ctx, work):
         'traces_validated_against_impl': len(tcases) - namb,
         'formats_enumerated': len(fmts), 'formats_ambiguous': sum(1 for f in fmts if f['amb']),
         'formats_simulated': len(r2.printed), 'formats_used': len({bytes(c['fmt']) for c in tcases}),
-        'cases_run': len(cases),
+        'cases_run': len(cases), 'shape_directed_cases': ndirected,
         'exhaustive': True,
-        'exhaustive_bound': 'all format strings of length <= %d over 10 characters (scanner); %d value tuples per format' % (L, per),
+        'exhaustive_bound': 'all format strings of length <= %d over 10 characters (scanner); %d pool + %d shape-directed value tuples per format' % (L, per, nd),
         'binding_demo': demo,
         'samples': [{'stmt': good[0]['meta']['text'], 'text': bytes(good[0]['text']).decode('latin-1')}] if good else [],
     })
@@ -335,6 +344,52 @@ def kinds_of(fmt):
         else:
             i += 1
     return kinds
+
+
+def shapes_of(fmt):
+    """numeric field shapes of a format (python mirror used only to pick values): for every field
+    ('str',) or ('num', positions before the point incl. commas, decimals)"""
+    shapes = []
+    i = 0
+    while i < len(fmt):
+        c = fmt[i]
+        if c == '_':
+            i += 2
+        elif c == '&' or c == '!':
+            shapes.append(('str',))
+            i += 1
+        elif c == '#' or (c == '+' and i + 1 < len(fmt) and fmt[i + 1] == '#'):
+            j = i + 1 if c == '+' else i
+            i = j
+            while i < len(fmt) and fmt[i] in '#,':
+                i += 1
+            npos, d = i - j, 0
+            if i < len(fmt) and fmt[i] == '.':
+                i += 1
+                while i < len(fmt) and fmt[i] == '#':
+                    i += 1
+                    d += 1
+            if c != '+' and i < len(fmt) and fmt[i] in '+-':
+                i += 1
+            shapes.append(('num', npos, d))
+        else:
+            i += 1
+    return shapes
+
+
+def directed_values(shape, rng):
+    """values at the edges of one numeric field: the largest value that fills it, the same with a
+    fraction that carries into one more digit, the one just below the tie, each with both signs,
+    for one position fewer / exactly / one more than the field has"""
+    _, npos, d = shape
+    k = max(1, min(9, npos + rng.choice((-1, 0, 0, 1))))
+    ip = '9' * k
+    frac = rng.choice(('', '.' + '9' * d + '5', '.' + '9' * d + '4', '.' + '0' * d + '5', '.' + '9' * max(d - 1, 0) + '5'))
+    lit = rng.choice(('', '-')) + ip + (frac if frac != '.' else '')
+    digits = k + max(len(frac) - 1, 0)
+    if digits > 6 or rng.random() < 0.5:
+        lit += '#'
+    return lit
 
 
 def validate(work, tcases, name='traces.json'):
